@@ -5,6 +5,7 @@ package harness
 import (
 	"context"
 	"fmt"
+	"google.golang.org/protobuf/proto"
 	"io"
 	"net"
 	"os"
@@ -36,6 +37,8 @@ type c04Case struct {
 	// unary schedule points), io:<k> (k-th I/O call on the client's connection, HTTP)
 	Point string
 	Reps  int // repetitions (Go's select picks randomly among ready cases)
+	// server-deadline mode: how far ahead the caller's deadline lies when the call starts (microseconds)
+	DeadlineUs int `json:",omitempty"`
 }
 
 // manualCtx is a context whose end the harness decides: Done is closed by fire(), Err is
@@ -564,6 +567,19 @@ func c04Run(c *c04Case, carrier string, rep int) *c04Obs {
 				}
 				obs.Received++
 				mu.Unlock()
+				if !serverStreaming(c.Kind) {
+					// a single-response stream hands out its message only together with an OK outcome
+					// (CloseAndRecv returning nil is "the call succeeded"): the handler must have returned nil
+					select {
+					case <-handlerDone:
+					case <-time.After(2 * time.Second):
+					}
+					mu.Lock()
+					if obs.Fault == "" && obs.HandlerRet != "nil" {
+						obs.Fault = fmt.Sprintf("RecvMsg #%d of a single-response stream returned nil (success) but the handler returned %q (instant fired: %v)", j, obs.HandlerRet, ctl.hasFired())
+					}
+					mu.Unlock()
+				}
 				continue
 			}
 			// wait (briefly) for the handler's own verdict, so that a genuine completion can be told apart
@@ -657,7 +673,97 @@ func c04Run(c *c04Case, carrier string, rep int) *c04Obs {
 	return obs
 }
 
+// c04ServerDeadline: the deadline reaches the handler first. The caller's deadline travels in the request;
+// the server's timer (whole units, rounded down) fires a little before the caller's own would, the handler
+// honours it and returns its context's error while the caller's context is still live. The caller must see
+// DeadlineExceeded as a status - the handler's own outcome - after an intact prefix of the responses.
+func c04ServerDeadline(c c04Case) *Outcome {
+	o := &Outcome{NonTrivial: true}
+	o.class("carrier=%s/kind=%s", c.Carrier, c.Kind)
+	o.class("mode=server-deadline")
+	ctx := newManualCtx(context.Background(), true)
+	ctx.deadline = time.Now().Add(time.Duration(c.DeadlineUs) * time.Microsecond)
+	defer ctx.fire()
+	var hmu sync.Mutex
+	hret := ""
+	wait := func(hctx context.Context) error {
+		select {
+		case <-hctx.Done():
+			hmu.Lock()
+			hret = hctx.Err().Error()
+			hmu.Unlock()
+			if c.Attitude == "return-status" {
+				return status.FromContextError(hctx.Err()).Err()
+			}
+			return hctx.Err()
+		case <-time.After(stallBound):
+			return status.Error(codes.Internal, "harness: the caller's deadline never reached the handler")
+		}
+	}
+	svc := &Service{
+		Unary: func(hctx context.Context, req *pb.Message) (*pb.Message, error) { return nil, wait(hctx) },
+		Stream: func(kind string, stream grpc.ServerStream) error {
+			for stream.RecvMsg(new(pb.Message)) == nil {
+				if !clientStreaming(kind) {
+					break
+				}
+			}
+			for i := 0; i < c.NResp && serverStreaming(kind); i++ {
+				if err := stream.SendMsg(c04Resp(i)); err != nil {
+					return err
+				}
+			}
+			return wait(stream.Context())
+		},
+	}
+	car := newCarrier(c.Carrier, newServiceDesc(), svc, carrierOpts{})
+	defer car.Close()
+	var results []string
+	var final error
+	stall := guard("call", func() {
+		if c.Kind == kUnary {
+			final = car.Conn.Invoke(ctx, mUnary, &pb.Message{}, new(pb.Message))
+			return
+		}
+		cs, err := car.Conn.NewStream(ctx, streamDescOf(c.Kind), methodOf(c.Kind))
+		if err != nil {
+			final = err
+			return
+		}
+		for i := 0; i < c.NReq; i++ {
+			cs.SendMsg(&pb.Message{Count: int32(i)})
+		}
+		cs.CloseSend()
+		for i := 0; ; i++ {
+			m := new(pb.Message)
+			if err := cs.RecvMsg(m); err != nil {
+				final = err
+				return
+			}
+			results = append(results, fmt.Sprint(m.Count))
+			if !proto.Equal(m, c04Resp(i)) {
+				final = fmt.Errorf("harness: response %d is %v", i, m)
+				return
+			}
+		}
+	})
+	hmu.Lock()
+	o.Observed = map[string]interface{}{"final": errStr(final), "received": results, "handler_ctx_err": hret}
+	hmu.Unlock()
+	if stall != "" {
+		return o.failf("%s/%s: deadline in %dus, handler honours it: %s", c.Carrier, c.Kind, c.DeadlineUs, stall)
+	}
+	st, ok := status.FromError(final)
+	if final == nil || !ok || st.Code() != codes.DeadlineExceeded {
+		return o.failf("%s/%s: deadline %dus ahead reached the handler first, handler returned its context's error (%s): caller got %s after %d messages, want a DeadlineExceeded status", c.Carrier, c.Kind, c.DeadlineUs, c.Attitude, errStr(final), len(results))
+	}
+	return o
+}
+
 func propC04(c c04Case) *Outcome {
+	if c.Mode == "server-deadline" {
+		return c04ServerDeadline(c)
+	}
 	o := &Outcome{}
 	o.class("carrier=%s/kind=%s", c.Carrier, c.Kind)
 	o.class("mode=%s/attitude=%s", c.Mode, c.Attitude)
@@ -759,6 +865,14 @@ func c04Points(carrier, kind string, nreq, nresp int, attitude string) []string 
 
 func genC04(t *rapid.T) c04Case {
 	c := c04Case{Carrier: rapid.SampledFrom(sutCarriers).Draw(t, "carrier"), Kind: rapid.SampledFrom(allKinds).Draw(t, "kind")}
+	if isHTTP(c.Carrier) && rapid.IntRange(0, 11).Draw(t, "serverdeadline") == 0 {
+		c.Mode = "server-deadline"
+		c.Attitude = rapid.SampledFrom([]string{"return-ctx-err", "return-status"}).Draw(t, "sdattitude")
+		c.NReq, c.NResp = rapid.IntRange(0, 2).Draw(t, "sdnreq"), rapid.IntRange(0, 2).Draw(t, "sdnresp")
+		// a fraction of a millisecond on top of whole ones: the timeout header is cut to whole units
+		c.DeadlineUs = rapid.IntRange(3, 30).Draw(t, "sdms")*1000 + rapid.SampledFrom([]int{0, 500, 950}).Draw(t, "sdus")
+		return c
+	}
 	c.Mode = rapid.SampledFrom([]string{"cancel", "cancel", "deadline"}).Draw(t, "mode")
 	c.Attitude = rapid.SampledFrom([]string{"ignore", "ignore", "return-ctx-err", "block", "return-send-err"}).Draw(t, "attitude")
 	c.NReq = rapid.IntRange(0, 3).Draw(t, "nreq")
